@@ -5,7 +5,7 @@
 WT=$1; ID=$2
 cd "$WT" || exit 2
 export CARGO_NET_OFFLINE=true CARGO_TARGET_DIR=$WT/target
-DEMOS=$(git status --short | grep '^??' | awk '{print $2}' | grep -E 'tests/seeded_demo[a-z_]*\.rs$')
+DEMOS=$(git status --short -uall | grep '^??' | awk '{print $2}' | grep -E 'tests/seeded_demo[a-z_]*\.rs$')
 run_demo() {
   for d in $DEMOS; do
     pkg=$(echo $d | cut -d/ -f1); t=$(basename $d .rs)
